@@ -71,6 +71,10 @@ pub struct Case {
     /// the updates go through `Network::update` / `Feedback::update` (slot addressing)
     #[serde(default)]
     pub net: Option<super::c03_net::NetHistory>,
+    /// k > 0: after every k-th update the optimizer is replaced by its `clone()` (checkpoint /
+    /// resume): a clone carries the state, so the history goes on as if nothing had happened
+    #[serde(default)]
+    pub clone_every: usize,
 }
 
 impl Slot {
@@ -154,12 +158,13 @@ fn layout(slots: &[Slot], rank: u8) -> Vec<Vec<Vec<tensor::Tensor>>> {
 }
 
 /// Drive the library: returns, per slot, the values after each of its updates.
-fn run_library(opt: &OptCfg, slots: &[Slot], rank: u8, order: &[u16], only: Option<usize>) -> Vec<Vec<Vec<f32>>> {
+fn run_library(opt: &OptCfg, slots: &[Slot], rank: u8, order: &[u16], only: Option<usize>, clone_every: usize) -> Vec<Vec<Vec<f32>>> {
     let mut o: optimizer::Optimizer = opt.to_lib();
     o.validate(layout(slots, rank));
     let mut values: Vec<tensor::Tensor> = slots.iter().map(|s| make_tensor(rank, s.dims, &s.init)).collect();
     let mut done = vec![0usize; slots.len()];
     let mut out: Vec<Vec<Vec<f32>>> = vec![Vec::new(); slots.len()];
+    let mut steps_taken = 0usize;
     for k in order {
         let k = *k as usize;
         let s = &slots[k];
@@ -177,6 +182,10 @@ fn run_library(opt: &OptCfg, slots: &[Slot], rank: u8, order: &[u16], only: Opti
         let mut gt = make_tensor(rank, s.dims, &g);
         o.update(s.layer, s.filter, s.bias, s.stepnr(t), &mut values[k], &mut gt);
         out[k].push(crate::cfg::flat(&values[k]));
+        steps_taken += 1;
+        if clone_every > 0 && steps_taken % clone_every == 0 {
+            o = o.clone();
+        }
     }
     out
 }
@@ -496,6 +505,7 @@ impl Property for C03 {
             "network_level_optimizer_reattached",
             "slot_ge_2pow18_elements",
             "tiny_nonzero_hyperparameter",
+            "optimizer_cloned_mid_history",
         ]
     }
 
@@ -504,7 +514,7 @@ impl Property for C03 {
         let opt = draw_optimizer(rng);
         if rng.chance(0.25) {
             let net = super::c03_net::generate(rng, &opt);
-            return Case { opt, slots: Vec::new(), order: Vec::new(), net: Some(net) };
+            return Case { opt, slots: Vec::new(), order: Vec::new(), net: Some(net), clone_every: 0 };
         }
         let long = rng.chance(match tier {
             Tier::Quick => 0.04,
@@ -562,7 +572,8 @@ impl Property for C03 {
             left[pick] -= 1;
             order.push(pick as u16);
         }
-        Case { opt, slots, order, net: None }
+        let clone_every = if !huge && rng.chance(0.1) { rng.pick(&[1usize, 2, 5]) } else { 0 };
+        Case { opt, slots, order, net: None, clone_every }
     }
 
     fn check(&self, case: &Case, stats: &mut Stats) -> Outcome {
@@ -588,6 +599,7 @@ impl Property for C03 {
             }
         });
         stats.probe("slots_ge_3", case.slots.len() >= 3);
+        stats.probe("optimizer_cloned_mid_history", case.clone_every > 0 && total > case.clone_every);
         stats.probe("slot_ge_2pow18_elements", case.slots.iter().any(|s| s.len() >= 1 << 18));
         stats.probe("interleaved", case.order.windows(2).filter(|w| w[0] != w[1]).count() >= 2);
         stats.probe("long_history", case.slots.iter().any(|s| s.updates >= 1000));
@@ -615,7 +627,7 @@ impl Property for C03 {
         // ---- the library, three ranks, interleaved -------------------------------------
         let mut by_rank: Vec<Vec<Vec<Vec<f32>>>> = Vec::new();
         for rank in [1u8, 2, 3] {
-            let (r, _) = run_env(&env, |_| run_library(opt, &case.slots, rank, &case.order, None));
+            let (r, _) = run_env(&env, |_| run_library(opt, &case.slots, rank, &case.order, None, case.clone_every));
             match r {
                 Ok(t) => by_rank.push(t),
                 Err(e) => {
@@ -650,7 +662,7 @@ impl Property for C03 {
         //     dense weights = Double, kernels = Triple; all equal by (b))
         if case.slots.len() > 1 {
             for k in 0..case.slots.len() {
-                let (r, _) = run_env(&env, |_| run_library(opt, &case.slots, 3, &case.order, Some(k)));
+                let (r, _) = run_env(&env, |_| run_library(opt, &case.slots, 3, &case.order, Some(k), case.clone_every));
                 let alone = match r {
                     Ok(t) => t,
                     Err(e) => {
@@ -804,7 +816,7 @@ impl Property for C03 {
         if let Some(h) = &case.net {
             return super::c03_net::shrink(h)
                 .into_iter()
-                .map(|n| Case { opt: n.net.optimizer.clone().unwrap_or(case.opt.clone()), slots: Vec::new(), order: Vec::new(), net: Some(n) })
+                .map(|n| Case { opt: n.net.optimizer.clone().unwrap_or(case.opt.clone()), slots: Vec::new(), order: Vec::new(), net: Some(n), clone_every: 0 })
                 .collect();
         }
         let mut out = Vec::new();
